@@ -344,6 +344,8 @@ def build_corpus(ascii_tails: bool = False, budget: Optional[InstrBudget] = None
                     # constant that the example values got wrong) is not "well-formed" enough.
                     layer_ok = False
                     try:
+                        if budget is not None:
+                            budget.arm(INSTR_LIMIT)
                         with environment({"warnings": "error"}):
                             if kind == "rq":
                                 msgs = layer.decode(pdu)
@@ -355,8 +357,16 @@ def build_corpus(ascii_tails: bool = False, budget: Optional[InstrBudget] = None
                                 if rq_pdu is not None:
                                     msgs = layer.decode_response(pdu, rq_pdu)
                                     layer_ok = len(msgs) >= 1 and all(m.coding_object is not None for m in msgs)
+                    except HangVerdict:
+                        # does not terminate through the layer: judged as an ordinary check by the first runs
+                        layer_ok = False
+                        STATE.setdefault("hang_checks", []).append(
+                            [lname, ["L", pdu.hex(), None, None, "corpus"]])
                     except Exception:  # noqa: BLE001
                         layer_ok = False
+                    finally:
+                        if budget is not None:
+                            budget.disarm()
                     ents.append({"svc": svc.short_name, "co": co.short_name, "kind": kind, "pdu": pdu.hex(),
                                  "layer_ok": layer_ok})
             corpus[lname] = ents
